@@ -541,11 +541,15 @@ Section TraceLevel.
   Lemma null_new_state : forall sg, par_new_state C (0, 0) sg (slider_new C []) = Ok {| cs_pos := 0; cs_len := 0 |}.
   Proof. intros []; reflexivity. Qed.
 
+  (* the length component of the left state is whatever the code computes (the left size before, the rest
+     of the window since the fix of compute_new_state); only the position matters below *)
   Lemma par_new_state_left : forall s T p rem l r,
-      sl_at s T p rem -> p + l <= u32_max ->
-      par_new_state C (l, r) SLeft s = Ok {| cs_pos := p + l; cs_len := l |}.
+      sl_at s T p rem -> p + l <= u32_max -> l <= rem ->
+      exists ll, par_new_state C (l, r) SLeft s = Ok {| cs_pos := p + l; cs_len := ll |}.
   Proof.
-    intros s T p rem l r (H1 & H2 & H3 & H4 & H5) Hu. unfold par_new_state. cbn [bind]. rewrite H2. nbool. reflexivity.
+    intros s T p rem l r Hs Hu Hl. pose proof (subtrace_len_sl _ _ _ _ Hs) as Hsub.
+    destruct Hs as (H1 & H2 & H3 & H4 & H5). unfold par_new_state. cbn [bind]. rewrite ?H2, ?Hsub. nbool.
+    eexists. reflexivity.
   Qed.
   Lemma par_new_state_right : forall s T p rem l r,
       sl_at s T p rem -> l + r <= rem -> p + (l + r) <= u32_max ->
@@ -559,11 +563,12 @@ Section TraceLevel.
 
   Definition mcur (m : cmode) (x : N * N) : N * N := match m with Mirror => x | Null => (0, 0) end.
   Definition mctx (m : cmode) (c : ctx_state) : ctx_state := match m with Mirror => c | Null => {| cs_pos := 0; cs_len := 0 |} end.
-  Definition par_fsm_of (m : cmode) (p1 rem1 nl nr insp saved ls rs : N) : par_fsm :=
-    let lc := {| cs_pos := p1 + nl; cs_len := nl |} in
+  Definition par_fsm_of (m : cmode) (p1 rem1 nl nr llp llc insp saved ls rs : N) : par_fsm :=
+    let lc := {| cs_pos := p1 + nl; cs_len := llp |} in
+    let lc' := {| cs_pos := p1 + nl; cs_len := llc |} in
     let rc := {| cs_pos := p1 + (nl + nr); cs_len := rem1 - (nl + nr) |} in
     {| pf_prev := (nl, nr); pf_cur := mcur m (nl, nr); pf_inserter := insp;
-       pf_left := (lc, mctx m lc); pf_right := (rc, mctx m rc);
+       pf_left := (lc, mctx m lc'); pf_right := (rc, mctx m rc);
        pf_saved := saved; pf_left_size := ls; pf_right_size := rs |}.
 
   Lemma hst_eq : forall m h P Q pos rem R pars folds pos' rem' R',
@@ -575,9 +580,9 @@ Section TraceLevel.
       hst m h P Q pos rem R pars folds ->
       nth_N P pos = Some (SPar nl nr) -> (m = Mirror -> nth_N Q pos = Some (SPar nl nr)) ->
       1 + nl + nr <= rem -> len_N P <= u32_max -> (m = Mirror -> len_N Q = len_N P) ->
-      exists h1, meet_par_start C h = Ok h1 /\
+      exists h1 llp llc, meet_par_start C h = Ok h1 /\
                  hst m h1 P Q (pos + 1) nl (R ++ [SPar 0 0])
-                     (par_fsm_of m (pos + 1) (rem - 1) nl nr (len_N R) (len_N (R ++ [SPar 0 0])) 0 0 :: pars) folds.
+                     (par_fsm_of m (pos + 1) (rem - 1) nl nr llp llc (len_N R) (len_N (R ++ [SPar 0 0])) 0 0 :: pars) folds.
   Proof.
     intros m h P Q pos rem R pars folds nl nr (Hk & Hpars & Hfolds) Ha Hb Hrem Hu HQ.
     assert (Hb' : m = Mirror -> exists b, nth_N Q pos = Some b) by (intro E; eauto).
@@ -589,39 +594,41 @@ Section TraceLevel.
     - rewrite (Hb eq_refl). cbn [bind]. unfold par_from_left_started.
       specialize (HQ eq_refl).
       cbn [k_prev k_cur push_state with_result].
-      rewrite (par_new_state_left _ _ _ _ nl nr Hp1) by lia.
-      rewrite (par_new_state_left _ _ _ _ nl nr Hc1) by lia. cbn [bind].
+      destruct (par_new_state_left _ _ _ _ nl nr Hp1 ltac:(lia) ltac:(lia)) as (llp & Ellp).
+      destruct (par_new_state_left _ _ _ _ nl nr Hc1 ltac:(lia) ltac:(lia)) as (llc & Ellc).
+      rewrite Ellp, Ellc. cbn [bind].
       rewrite (par_new_state_right _ _ _ _ nl nr Hp1) by lia.
       rewrite (par_new_state_right _ _ _ _ nl nr Hc1) by lia. cbn [bind].
       unfold par_prepare_sliders. cbn [pf_prev pf_cur fst snd k_prev k_cur with_prev with_cur push_state with_result mcur].
       destruct (set_subtrace_len_sl _ _ _ _ nl Hp1 ltac:(lia)) as (sp & Esp & Hsp).
       destruct (set_subtrace_len_sl _ _ _ _ nl Hc1 ltac:(lia)) as (sc & Esc & Hsc).
       rewrite Esp. cbn [bind k_cur with_prev]. rewrite Esc. cbn [bind].
-      eexists; split; [reflexivity|].
+      eexists; exists llp, llc; split; [reflexivity|].
       unfold hst, kst; cbn. rewrite Hr1. unfold result_next_pos. rewrite Hr1.
       split; [split; [assumption | split; [first [assumption | reflexivity] | reflexivity]] | split; [rewrite Hpars; reflexivity | assumption]].
     - cbn [bind]. unfold par_from_left_started.
       cbn [k_prev k_cur push_state with_result].
-      rewrite (par_new_state_left _ _ _ _ nl nr Hp1) by lia.
+      destruct (par_new_state_left _ _ _ _ nl nr Hp1 ltac:(lia) ltac:(lia)) as (llp & Ellp).
+      rewrite Ellp.
       rewrite Hc1. rewrite !null_new_state. cbn [bind].
       rewrite (par_new_state_right _ _ _ _ nl nr Hp1) by lia. cbn [bind].
       unfold par_prepare_sliders. cbn [pf_prev pf_cur fst snd k_prev k_cur with_prev with_cur push_state with_result mcur].
       destruct (set_subtrace_len_sl _ _ _ _ nl Hp1 ltac:(lia)) as (sp & Esp & Hsp).
       rewrite Esp. cbn [bind k_cur with_prev]. rewrite Hc1, null_set_sub. cbn [bind].
-      eexists; split; [reflexivity|].
+      eexists; exists llp, 0; split; [reflexivity|].
       unfold hst, kst; cbn. rewrite Hr1. unfold result_next_pos. rewrite Hr1.
       split; [split; [assumption | split; [first [assumption | reflexivity] | reflexivity]] | split; [rewrite Hpars; reflexivity | assumption]].
   Qed.
 
-  Lemma par_left_ok : forall m h P Q p1 rem1 R pars folds nl nr insp Jl,
+  Lemma par_left_ok : forall m h P Q p1 rem1 R pars folds nl nr llp llc insp Jl,
       hst m h P Q (p1 + nl) 0 (R ++ [SPar 0 0] ++ Jl)
-          (par_fsm_of m p1 rem1 nl nr insp (len_N (R ++ [SPar 0 0])) 0 0 :: pars) folds ->
+          (par_fsm_of m p1 rem1 nl nr llp llc insp (len_N (R ++ [SPar 0 0])) 0 0 :: pars) folds ->
       len_N Jl = nl -> p1 + nl + nr <= len_N P -> len_N P <= u32_max -> (m = Mirror -> len_N Q = len_N P) ->
       exists h', meet_par_subgraph_end C h SLeft = Ok h' /\
                  hst m h' P Q (p1 + nl) nr (R ++ [SPar 0 0] ++ Jl)
-                     (par_fsm_of m p1 rem1 nl nr insp (len_N (R ++ [SPar 0 0] ++ Jl)) nl 0 :: pars) folds.
+                     (par_fsm_of m p1 rem1 nl nr llp llc insp (len_N (R ++ [SPar 0 0] ++ Jl)) nl 0 :: pars) folds.
   Proof.
-    intros m h P Q p1 rem1 R pars folds nl nr insp Jl (Hk & Hpars & Hfolds) HJ Hb Hu HQ.
+    intros m h P Q p1 rem1 R pars folds nl nr llp llc insp Jl (Hk & Hpars & Hfolds) HJ Hb Hu HQ.
     destruct Hk as (Hp & Hc & Hr).
     unfold meet_par_subgraph_end. rewrite Hpars. unfold par_left_completed, par_track.
     rewrite Hr. unfold par_fsm_of. cbn [pf_prev pf_cur pf_inserter pf_left pf_right pf_saved pf_left_size pf_right_size].
@@ -631,11 +638,11 @@ Section TraceLevel.
       by (rewrite !len_N_app; lia).
     cbn [bind pf_left pf_prev pf_cur fst snd]. unfold update_ctx_states.
     cbn [cs_pos cs_len].
-    destruct (set_pos_len_swallow _ _ _ _ nl Hp) as (sp & remp & Esp & Hsp).
+    destruct (set_pos_len_swallow _ _ _ _ llp Hp) as (sp & remp & Esp & Hsp).
     rewrite Esp. cbn [bind].
     destruct m; cbn [cur_at mctx mcur cs_pos cs_len] in *.
     - specialize (HQ eq_refl).
-      destruct (set_pos_len_swallow _ _ _ _ nl Hc) as (sc & remc & Esc & Hsc).
+      destruct (set_pos_len_swallow _ _ _ _ llc Hc) as (sc & remc & Esc & Hsc).
       rewrite Esc. cbn [bind k_prev k_cur with_prev with_cur snd].
       destruct (set_subtrace_len_sl _ _ _ _ nr Hsp ltac:(lia)) as (sp2 & Esp2 & Hsp2).
       destruct (set_subtrace_len_sl _ _ _ _ nr Hsc ltac:(lia)) as (sc2 & Esc2 & Hsc2).
@@ -649,14 +656,14 @@ Section TraceLevel.
       unfold hst, kst; cbn. split; [split; [assumption | split; [reflexivity | assumption]] | split; [reflexivity | assumption]].
   Qed.
 
-  Lemma par_right_ok : forall m h P Q p1 rem1 R pars folds nl nr J Jr,
+  Lemma par_right_ok : forall m h P Q p1 rem1 R pars folds nl nr llp llc J Jr,
       hst m h P Q (p1 + nl + nr) 0 (R ++ [SPar 0 0] ++ J ++ Jr)
-          (par_fsm_of m p1 rem1 nl nr (len_N R) (len_N (R ++ [SPar 0 0] ++ J)) nl 0 :: pars) folds ->
+          (par_fsm_of m p1 rem1 nl nr llp llc (len_N R) (len_N (R ++ [SPar 0 0] ++ J)) nl 0 :: pars) folds ->
       len_N Jr = nr -> nl + nr <= rem1 -> p1 + rem1 <= len_N P -> len_N P <= u32_max -> (m = Mirror -> len_N Q = len_N P) ->
       exists h', meet_par_subgraph_end C h SRight = Ok h' /\
                  hst m h' P Q (p1 + (nl + nr)) (rem1 - (nl + nr)) (R ++ [SPar nl nr] ++ J ++ Jr) pars folds.
   Proof.
-    intros m h P Q p1 rem1 R pars folds nl nr J Jr (Hk & Hpars & Hfolds) HJ Hrem Hb Hu HQ.
+    intros m h P Q p1 rem1 R pars folds nl nr llp llc J Jr (Hk & Hpars & Hfolds) HJ Hrem Hb Hu HQ.
     destruct Hk as (Hp & Hc & Hr).
     unfold meet_par_subgraph_end. rewrite Hpars. unfold par_right_completed, par_track.
     rewrite Hr. unfold par_fsm_of. cbn [pf_prev pf_cur pf_inserter pf_left pf_right pf_saved pf_left_size pf_right_size].
@@ -878,7 +885,7 @@ Section TraceLevel.
     { intros ->. destruct (Hq eq_refl) as (-> & _). eapply cur_decomp_nth. eassumption. }
     rewrite replay_tree_par.
     (* par start *)
-    destruct (par_start_ok _ _ _ _ _ _ _ _ _ nl nr Hh Hn HnQ ltac:(lia) Hu HQ) as (h1 & E1 & Hh1).
+    destruct (par_start_ok _ _ _ _ _ _ _ _ _ nl nr Hh Hn HnQ ltac:(lia) Hu HQ) as (h1 & llp & llc & E1 & Hh1).
     rewrite E1. cbn [bind].
     (* the decomposition of the current trace for the two branches *)
     assert (HQl : cur_decomp m Q (pos + 1) q1 /\ cur_decomp m Q (pos + 1 + nl) q2).
@@ -897,10 +904,10 @@ Section TraceLevel.
     { fold nl. lia. }
     rewrite E2. cbn [bind]. fold nl in Hh2.
     assert (Hh2' : hst m h2 P Q (pos + 1 + nl) 0 (R ++ [SPar 0 0] ++ Jl)
-                       (par_fsm_of m (pos + 1) (rem - 1) nl nr (len_N R) (len_N (R ++ [SPar 0 0])) 0 0 :: pars) folds).
+                       (par_fsm_of m (pos + 1) (rem - 1) nl nr llp llc (len_N R) (len_N (R ++ [SPar 0 0])) 0 0 :: pars) folds).
     { eapply hst_eq; [exact Hh2|..]; try lia; lnorm; reflexivity. }
     assert (HlenP : pos + 1 + nl + nr <= len_N P) by lia.
-    destruct (par_left_ok _ _ _ _ _ _ _ _ _ _ _ _ _ Hh2' HlenJl HlenP Hu HQ) as (h3 & E3 & Hh3).
+    destruct (par_left_ok _ _ _ _ _ _ _ _ _ _ _ _ _ _ _ Hh2' HlenJl HlenP Hu HQ) as (h3 & E3 & Hh3).
     rewrite E3. cbn [bind].
     (* right branch *)
     destruct (IHr h3 P Q (pos + 1 + nl) nr (R ++ [SPar 0 0] ++ Jl) _ folds (preP ++ SPar nl nr :: flatten C l) postP q2 Jr Hokr Hh3)
@@ -910,9 +917,9 @@ Section TraceLevel.
     { fold nr. lia. }
     rewrite E4. cbn [bind]. fold nr in Hh4.
     assert (Hh4' : hst m h4 P Q (pos + 1 + nl + nr) 0 (R ++ [SPar 0 0] ++ Jl ++ Jr)
-                       (par_fsm_of m (pos + 1) (rem - 1) nl nr (len_N R) (len_N (R ++ [SPar 0 0] ++ Jl)) nl 0 :: pars) folds).
+                       (par_fsm_of m (pos + 1) (rem - 1) nl nr llp llc (len_N R) (len_N (R ++ [SPar 0 0] ++ Jl)) nl 0 :: pars) folds).
     { eapply hst_eq; [exact Hh4|..]; try lia; lnorm; reflexivity. }
-    destruct (par_right_ok _ _ _ _ _ _ _ _ _ _ _ _ _ Hh4' HlenJr ltac:(lia) ltac:(lia) Hu HQ) as (h5 & E5 & Hh5).
+    destruct (par_right_ok _ _ _ _ _ _ _ _ _ _ _ _ _ _ _ Hh4' HlenJr ltac:(lia) ltac:(lia) Hu HQ) as (h5 & E5 & Hh5).
     exists h5. split; [exact E5|].
     eapply hst_eq; [exact Hh5|..]; rewrite ?len_N_cons, ?len_N_app; fold nl nr; try lia.
     lnorm. reflexivity.
